@@ -1,1 +1,594 @@
 // Kani harnesses compiled inside rs-matter/src/transport/exchange.rs (module `verif_kani`).
+
+mod c10 {
+    use super::*;
+
+    fn any_role() -> Role {
+        match kani::any::<u8>() % 5 {
+            0 => Role::Initiator(InitiatorState::Owned),
+            1 => Role::Initiator(InitiatorState::Dropped),
+            2 => Role::Responder(ResponderState::AcceptPending),
+            3 => Role::Responder(ResponderState::Owned),
+            _ => Role::Responder(ResponderState::Dropped),
+        }
+    }
+
+    fn any_proto() -> ProtoHdr {
+        let mut p = ProtoHdr::new();
+        p.exch_id = kani::any();
+        p.proto_id = kani::any();
+        p.proto_opcode = kani::any();
+        if kani::any() {
+            p.set_reliable();
+        }
+        if kani::any() {
+            p.set_initiator();
+        }
+        if kani::any() {
+            p.set_ack(Some(kani::any()));
+        }
+        if kani::any() {
+            p.set_vendor(Some(kani::any()));
+        }
+        p
+    }
+
+    /// A message sent by the peer as initiator of an exchange is for our *responder* side of
+    /// that exchange and vice versa.
+    fn complementary(role: Role, msg_from_initiator: bool) -> bool {
+        match role {
+            Role::Responder(_) => msg_from_initiator,
+            Role::Initiator(_) => !msg_from_initiator,
+        }
+    }
+
+    // TIER: quick
+    // KIND: complete
+    #[kani::proof]
+    fn c10_exchange_is_for_rx() {
+        let exch_id: u16 = kani::any();
+        let role = any_role();
+        let gctr: Option<u32> = kani::any();
+        let x = ExchangeState {
+            exch_id,
+            role,
+            mrp: ReliableMessage::new(),
+            #[cfg(feature = "groups")]
+            group_data_ctr: gctr,
+        };
+        let proto = any_proto();
+        let r = x.is_for_rx(&proto);
+        kani::assert(
+            r == (proto.exch_id == exch_id && complementary(role, proto.is_initiator())),
+            "C10.is_for_rx.same_id_and_complementary_role"
+        );
+        kani::assert(!r || proto.exch_id == exch_id, "C10.is_for_rx.never_other_exchange_id");
+        kani::assert(
+            !(r && proto.is_initiator()) || matches!(role, Role::Responder(_)),
+            "C10.is_for_rx.initiator_message_only_to_responder_side"
+        );
+        kani::assert(x.exch_id == exch_id && x.role == role && x.group_data_ctr == gctr, "C10.is_for_rx.pure");
+        kani::cover!(r && proto.is_initiator(), "initiator message matches responder exchange");
+        kani::cover!(r && !proto.is_initiator(), "responder message matches initiator exchange");
+        kani::cover!(!r && proto.exch_id == exch_id, "same id, same role: not ours");
+    }
+
+    // TIER: quick
+    // KIND: complete
+    #[kani::proof]
+    fn c10_message_meta_kinds() {
+        let proto = any_proto();
+        let m = MessageMeta::from(&proto);
+        kani::assert(
+            m.proto_id == proto.proto_id && m.proto_opcode == proto.proto_opcode && m.reliable == proto.is_reliable(),
+            "C10.meta.from_header_is_faithful"
+        );
+
+        let m = MessageMeta {
+            proto_id: kani::any(),
+            proto_opcode: kani::any(),
+            reliable: kani::any(),
+        };
+        let sc = m.proto_id == 0x0000;
+        let standalone_ack = sc && m.proto_opcode == 0x10;
+        let status = sc && m.proto_opcode == 0x40;
+        let new_session = sc && (m.proto_opcode == 0x20 || m.proto_opcode == 0x30);
+        kani::assert(m.is_standalone_ack() == standalone_ack, "C10.meta.standalone_ack");
+        kani::assert(m.is_sc_status() == status, "C10.meta.sc_status");
+        kani::assert(m.is_new_session() == new_session, "C10.meta.new_session");
+        // a standalone ack or a status report never opens an exchange; everything else may
+        kani::assert(m.is_new_exchange() == !(standalone_ack || status), "C10.meta.new_exchange");
+        // a session-establishment request is always allowed to open its exchange
+        kani::assert(!m.is_new_session() || m.is_new_exchange(), "C10.meta.new_session_may_open_exchange");
+        kani::cover!(standalone_ack, "standalone ack");
+        kani::cover!(status, "status report");
+        kani::cover!(new_session, "session request");
+        kani::cover!(!sc && m.proto_opcode == 0x10, "same opcode in another protocol");
+    }
+}
+
+mod c09 {
+    use super::*;
+
+    fn fake_now() -> Instant {
+        Instant::from_ticks(kani::any())
+    }
+
+    fn any_role() -> Role {
+        match kani::any::<u8>() % 5 {
+            0 => Role::Initiator(InitiatorState::Owned),
+            1 => Role::Initiator(InitiatorState::Dropped),
+            2 => Role::Responder(ResponderState::AcceptPending),
+            3 => Role::Responder(ResponderState::Owned),
+            _ => Role::Responder(ResponderState::Dropped),
+        }
+    }
+
+    fn any_proto() -> ProtoHdr {
+        let mut p = ProtoHdr::new();
+        p.exch_id = kani::any();
+        p.proto_id = kani::any();
+        p.proto_opcode = kani::any();
+        if kani::any() {
+            p.set_reliable();
+        }
+        if kani::any() {
+            p.set_initiator();
+        }
+        if kani::any() {
+            p.set_ack(Some(kani::any()));
+        }
+        if kani::any() {
+            p.set_vendor(Some(kani::any()));
+        }
+        p
+    }
+
+    fn any_plain() -> PlainHdr {
+        let mut h = PlainHdr::new();
+        h.sess_id = kani::any();
+        h.ctr = kani::any();
+        if kani::any() {
+            h.set_src_nodeid(Some(kani::any()));
+        }
+        h
+    }
+
+    /// Parameters of a reliability state. The fields of `RetransEntry` are private to `mrp`, so an
+    /// entry is produced by its constructor followed by `k` attempts: every entry satisfying the
+    /// representation invariant proved in transport__mrp.rs (`base > 0`, `counter <= budget`;
+    /// C09.retrans_new.*, C09.retrans_pre_send.invariant_preserved) is produced this way.
+    type RmParams = (Option<(Option<u32>, u32, u8)>, Option<(u32, bool)>, Option<u64>);
+
+    fn mk_rm(p: &RmParams) -> ReliableMessage {
+        ReliableMessage {
+            retrans: p.0.map(|(base, ctr, k)| {
+                let mut e = mrp::RetransEntry::new(base, ctr);
+                let mut i = 0u8;
+                while i < 6 {
+                    if i < k {
+                        let _ = e.pre_send(ctr);
+                    }
+                    i += 1;
+                }
+                e
+            }),
+            ack: p.1.map(|(m, a)| mrp::AckEntry {
+                msg_ctr: m,
+                acknowledged: a,
+            }),
+            received_at: p.2.map(Instant::from_ticks),
+        }
+    }
+
+    /// Observation of an entry from outside `mrp`: the counter it waits for, `floor(1.1 base)`
+    /// (strictly increasing in `base`, hence identifies it) and the number of attempts left
+    /// (identifies `counter` under the invariant). The probe works on a bitwise copy of the
+    /// plain-data entry.
+    fn obs_retrans(e: &mrp::RetransEntry) -> (u32, u64, u16) {
+        let mut c: mrp::RetransEntry = unsafe { core::ptr::read(e) };
+        let ctr = c.get_msg_ctr();
+        let mut left = 0u16;
+        let mut i = 0u8;
+        while i < 7 {
+            if c.pre_send(ctr).is_ok() {
+                left += 1;
+            }
+            i += 1;
+        }
+        (ctr, e.delay_ms_counter(0, 0), left)
+    }
+
+    type RmObs = (Option<(u32, u64, u16)>, Option<(u32, bool)>, Option<u64>);
+
+    fn obs(m: &ReliableMessage) -> RmObs {
+        (
+            m.retrans.as_ref().map(obs_retrans),
+            m.ack.as_ref().map(|a| (a.msg_ctr, a.acknowledged)),
+            m.received_at.map(|t| t.as_ticks()),
+        )
+    }
+
+    fn same_result(a: &Result<(), Error>, b: &Result<(), Error>) -> bool {
+        match (a, b) {
+            (Ok(()), Ok(())) => true,
+            (Err(x), Err(y)) => x.code() == y.code(),
+            _ => false,
+        }
+    }
+
+    // TIER: quick
+    // KIND: complete
+    #[kani::proof]
+    #[kani::unwind(9)]
+    fn c09_exchange_pre_send() {
+        let p: RmParams = kani::any();
+        let exch_id: u16 = kani::any();
+        let role = any_role();
+        let gctr: Option<u32> = kani::any();
+        let mut x = ExchangeState {
+            exch_id,
+            role,
+            mrp: mk_rm(&p),
+            #[cfg(feature = "groups")]
+            group_data_ctr: gctr,
+        };
+        let mut twin = mk_rm(&p);
+
+        let plain = any_plain();
+        let mut proto = any_proto();
+        let mut twin_proto = proto.clone();
+        let sai: Option<u32> = kani::any();
+        let sii: Option<u32> = kani::any();
+        // precondition of the MRP layer (see C09.rm_pre_send.*): a pending message is re-sent under its own counter
+        if let Some((_, ctr, _)) = p.0 {
+            kani::assume(!proto.is_reliable() || ctr == plain.ctr);
+        }
+
+        let r = x.pre_send(&plain, &mut proto, sai, sii);
+        let rt = twin.pre_send(&plain, &mut twin_proto, sai, sii);
+
+        // the outgoing header is addressed to this exchange, in our role
+        kani::assert(proto.exch_id == exch_id, "C09.exchange_pre_send.header_carries_own_exchange_id");
+        kani::assert(
+            proto.is_initiator() == matches!(role, Role::Initiator(_)),
+            "C09.exchange_pre_send.header_carries_own_role"
+        );
+        // result and reliability state are exactly those of the MRP contract
+        kani::assert(same_result(&r, &rt), "C09.exchange_pre_send.result_is_mrp_result");
+        kani::assert(obs(&x.mrp) == obs(&twin), "C09.exchange_pre_send.state_is_mrp_state");
+        kani::assert(
+            proto.get_ack() == twin_proto.get_ack()
+                && proto.is_reliable() == twin_proto.is_reliable()
+                && proto.proto_id == twin_proto.proto_id
+                && proto.proto_opcode == twin_proto.proto_opcode
+                && proto.get_vendor() == twin_proto.get_vendor(),
+            "C09.exchange_pre_send.header_is_mrp_header"
+        );
+        // give-up is reported, never success
+        let give_up = proto.is_reliable() && matches!(p.0, Some((_, _, k)) if k >= 5);
+        kani::assert(r.is_err() == give_up, "C09.exchange_pre_send.err_iff_budget_used_up");
+        kani::assert(!give_up || (!x.mrp.is_retrans_pending() && !x.mrp.is_ack_pending()), "C09.exchange_pre_send.give_up_clears_state");
+        // frame
+        kani::assert(x.exch_id == exch_id && x.role == role && x.group_data_ctr == gctr, "C09.exchange_pre_send.frame");
+
+        kani::cover!(give_up, "give up");
+        kani::cover!(r.is_ok() && p.0.is_some() && proto.is_reliable(), "retransmission");
+        kani::cover!(r.is_ok() && p.0.is_none() && proto.is_reliable(), "first transmission");
+        kani::cover!(matches!(role, Role::Responder(_)), "responder");
+    }
+
+    // TIER: quick
+    // KIND: complete
+    #[kani::proof]
+    #[kani::unwind(9)]
+    #[kani::stub(embassy_time::Instant::now, fake_now)]
+    fn c09_exchange_post_recv() {
+        let p: RmParams = kani::any();
+        let exch_id: u16 = kani::any();
+        let role = any_role();
+        let gctr: Option<u32> = kani::any();
+        let mut x = ExchangeState {
+            exch_id,
+            role,
+            mrp: mk_rm(&p),
+            #[cfg(feature = "groups")]
+            group_data_ctr: gctr,
+        };
+        let mut twin = mk_rm(&p);
+        let before = obs(&x.mrp);
+
+        let plain = any_plain();
+        let proto = any_proto();
+
+        let r = x.post_recv(&plain, &proto);
+        let rt = twin.post_recv(&plain, &proto);
+
+        let (o, ot) = (obs(&x.mrp), obs(&twin));
+        kani::assert(same_result(&r, &rt), "C09.exchange_post_recv.result_is_mrp_result");
+        // (the receive time is an independent reading of the clock in the twin)
+        kani::assert(o.0 == ot.0 && o.1 == ot.1 && o.2.is_some() == ot.2.is_some(), "C09.exchange_post_recv.state_is_mrp_state");
+        // restated from the property: an acknowledgement for another counter is refused and changes nothing
+        let mismatch = matches!((proto.get_ack(), p.0), (Some(a), Some((_, ctr, _))) if a != ctr);
+        kani::assert(r.is_err() == mismatch, "C09.exchange_post_recv.err_iff_ack_for_other_counter");
+        kani::assert(!mismatch || o == before, "C09.exchange_post_recv.mismatch_changes_nothing");
+        kani::assert(
+            !(r.is_ok() && proto.is_reliable()) || o.1 == Some((plain.ctr, false)),
+            "C09.exchange_post_recv.reliable_records_unsent_ack"
+        );
+        kani::assert(x.exch_id == exch_id && x.role == role && x.group_data_ctr == gctr, "C09.exchange_post_recv.frame");
+
+        kani::cover!(mismatch, "ack for another counter");
+        kani::cover!(r.is_ok() && before.0.is_some() && o.0.is_none(), "matching ack");
+        kani::cover!(r.is_ok() && proto.is_reliable(), "reliable message");
+    }
+
+    // Ghost record of the call made to `RetransEntry::delay_ms` (whose contract - the MRP back-off of
+    // the entry's own base interval and attempt number - is proved in transport__mrp.rs, C09.delay.*).
+    static mut DELAY_CALLS: u8 = 0;
+    static mut DELAY_JITTER: u8 = 0;
+    static mut DELAY_ENTRY_CTR: u32 = 0;
+    static mut DELAY_RESULT: u64 = 0;
+
+    fn delay_by_contract(e: &mrp::RetransEntry, jitter_rand: u8) -> u64 {
+        let r: u64 = kani::any();
+        unsafe {
+            DELAY_CALLS += 1;
+            DELAY_JITTER = jitter_rand;
+            DELAY_ENTRY_CTR = e.get_msg_ctr();
+            DELAY_RESULT = r;
+        }
+        r
+    }
+
+    // TIER: quick
+    // KIND: complete
+    #[kani::proof]
+    #[kani::unwind(9)]
+    #[kani::stub(mrp::RetransEntry::delay_ms, delay_by_contract)]
+    fn c09_exchange_retrans_delay() {
+        let p: RmParams = kani::any();
+        let exch_id: u16 = kani::any();
+        let role = any_role();
+        let mut x = ExchangeState {
+            exch_id,
+            role,
+            mrp: mk_rm(&p),
+            #[cfg(feature = "groups")]
+            group_data_ctr: None,
+        };
+        let before = obs(&x.mrp);
+        let j: u8 = kani::any();
+
+        let d = x.retrans_delay_ms(j);
+
+        kani::assert(d.is_some() == x.mrp.is_retrans_pending(), "C09.exchange_delay.some_iff_retrans_pending");
+        kani::assert(d.is_some() == p.0.is_some(), "C09.exchange_delay.some_iff_entry");
+        let (calls, jitter, ctr, result) = unsafe { (DELAY_CALLS, DELAY_JITTER, DELAY_ENTRY_CTR, DELAY_RESULT) };
+        match (d, p.0) {
+            (Some(d), Some((_, pending_ctr, _))) => {
+                // the wait is the back-off of this exchange's own pending message, with the given jitter
+                kani::assert(calls == 1 && ctr == pending_ctr && jitter == j && d == result, "C09.exchange_delay.is_backoff_of_own_pending_entry");
+            }
+            _ => {
+                kani::assert(calls == 0, "C09.exchange_delay.no_backoff_without_pending_entry");
+            }
+        }
+        kani::assert(obs(&x.mrp) == before && x.exch_id == exch_id && x.role == role, "C09.exchange_delay.pure");
+        kani::cover!(d.is_some(), "pending");
+        kani::cover!(d.is_none(), "nothing pending");
+    }
+}
+
+#[cfg(feature = "groups")]
+#[allow(dead_code, unused_imports)]
+mod c12 {
+    use super::*;
+
+    use core::cell::Cell;
+
+    use crate::dm::clusters::basic_info::BasicInfoConfig;
+    use crate::dm::devices::test::{TEST_DEV_ATT, TEST_DEV_COMM, TEST_DEV_DET};
+    use crate::fabric::Fabrics;
+    use crate::persist::{KvBlobStore, KvBlobStoreAccess, GROUP_DATA_COUNTER_KEY};
+    use crate::transport::network::Address;
+    use crate::transport::verif_kani::c03::mock::MockCrypto;
+
+    const RANGE: u32 = 0x0fff_ffff;
+    const EPOCH: u32 = 1000;
+
+    fn fake_now() -> Instant {
+        Instant::from_ticks(kani::any())
+    }
+
+    fn succ(v: u32) -> u32 {
+        if v == RANGE {
+            1
+        } else {
+            v + 1
+        }
+    }
+
+    fn steps(a: u32, b: u32) -> u32 {
+        let (pa, pb) = (a - 1, b - 1);
+        if pb >= pa {
+            pb - pa
+        } else {
+            pb + RANGE - pa
+        }
+    }
+
+    fn group_tx_contract<'a, C: Crypto>(
+        this: &'a mut Sessions,
+        crypto: C,
+        _fabrics: &Fabrics,
+        _fab_idx: NonZeroU8,
+        _group_id: u16,
+        _dev_det: &BasicInfoConfig<'_>,
+    ) -> Result<&'a mut Session, Error> {
+        if kani::any() {
+            return Err(ErrorCode::NotFound.into());
+        }
+        this.get_or_init_global_group_data_ctr(crypto)?;
+        this.get(0).ok_or(ErrorCode::NotFound.into())
+    }
+
+    /// ASSUMED CONTRACT OF THE KEY-VALUE STORE: `Ok` => the durable value of the key is `data`;
+    /// `Err` => unchanged. Records every call.
+    struct RecKv {
+        fail: bool,
+        stores: Cell<usize>,
+        key: Cell<u16>,
+        data: Cell<[u8; 4]>,
+        len: Cell<usize>,
+    }
+
+    struct RecStore<'a>(&'a RecKv);
+
+    impl KvBlobStore for RecStore<'_> {
+        fn load<'a>(&mut self, _key: u16, _buf: &'a mut [u8]) -> Result<Option<&'a [u8]>, Error> {
+            unimplemented!()
+        }
+
+        fn store(&mut self, key: u16, data: &[u8], _buf: &mut [u8]) -> Result<(), Error> {
+            let kv = self.0;
+            kv.stores.set(kv.stores.get() + 1);
+            if kv.fail {
+                return Err(ErrorCode::StdIoError.into());
+            }
+            kv.key.set(key);
+            kv.len.set(data.len());
+            if data.len() == 4 {
+                kv.data.set([data[0], data[1], data[2], data[3]]);
+            }
+            Ok(())
+        }
+
+        fn remove(&mut self, _key: u16, _buf: &mut [u8]) -> Result<(), Error> {
+            unimplemented!()
+        }
+    }
+
+    impl KvBlobStoreAccess for RecKv {
+        fn access<F, R>(&self, f: F) -> R
+        where
+            F: FnOnce(&mut dyn KvBlobStore, &mut [u8]) -> R,
+        {
+            let mut buf = [0u8; 16];
+            let mut st = RecStore(self);
+            f(&mut st, &mut buf)
+        }
+    }
+
+    /// Durable boundary after the recorded calls, given it was `d` before.
+    fn durable_after(kv: &RecKv, d: u32) -> u32 {
+        if kv.stores.get() > 0 && !kv.fail && kv.len.get() == 4 {
+            u32::from_le_bytes(kv.data.get())
+        } else {
+            d
+        }
+    }
+
+    /// A `Matter` whose session table holds one session (id 0) and whose group counter was
+    /// resumed at the durable boundary `d` - the state right after a restart.
+    fn setup(matter: &Matter<'_>, d: u32) {
+        matter.with_state(|state| {
+            let _ = state.sessions.add(1, false, Address::new(), None, matter.dev_det());
+            state.sessions.resume_global_group_data_ctr(d);
+        });
+    }
+
+    /// Store-before-use with a working store: on `Ok` the boundary one epoch ahead was written
+    /// under the right key exactly once, the value stashed for the message is the stored-at
+    /// boundary `d` itself and lies strictly below what is durable now.
+    // NOT CLOSED (CBMC time-out 900 s with a full `Matter` value) - kept for the record, not compiled.
+    // TIER: thorough
+    // KIND: complete
+    #[cfg(verif_unclosed)]
+    #[kani::proof]
+    #[kani::unwind(8)]
+    #[kani::stub(Sessions::get_or_create_for_group_tx, group_tx_contract)]
+    #[kani::stub(embassy_time::Instant::now, fake_now)]
+    fn c12_initiate_group_stores_boundary_before_use() {
+        let matter = Matter::new(&TEST_DEV_DET, TEST_DEV_COMM, &TEST_DEV_ATT, 0);
+        let d: u32 = kani::any();
+        kani::assume(d >= 1 && d <= RANGE);
+        setup(&matter, d);
+        let crypto = MockCrypto::new(true, true, kani::any());
+        let kv = RecKv {
+            fail: false,
+            stores: Cell::new(0),
+            key: Cell::new(0),
+            data: Cell::new([0; 4]),
+            len: Cell::new(0),
+        };
+
+        let r = Exchange::initiate_group(&matter, &crypto, &kv, NonZeroU8::new(1).unwrap(), kani::any());
+
+        if let Ok(exchange) = &r {
+            kani::assert(kv.stores.get() == 1, "C12.group.initiate_stores_boundary_once");
+            kani::assert(kv.key.get() == GROUP_DATA_COUNTER_KEY && kv.len.get() == 4, "C12.group.initiate_store_key_and_format");
+            let b = durable_after(&kv, d);
+            kani::assert(b >= 1 && b <= RANGE && (steps(d, b) == EPOCH || steps(d, b) == EPOCH - 1), "C12.group.initiate_stored_boundary_one_epoch_ahead");
+            let stashed = matter.with_state(|state| {
+                let s = state.sessions.get(exchange.id().session_id()).unwrap();
+                s.exchanges[exchange.id().exchange_index()].as_ref().unwrap().group_data_ctr
+            });
+            kani::assert(stashed == Some(d), "C12.group.initiate_value_is_resumed_boundary");
+            kani::assert(steps(d, b) >= 1, "C12.group.initiate_value_below_durable_boundary");
+        } else {
+            kani::assert(kv.stores.get() <= 1, "C12.group.initiate_err_at_most_one_store");
+        }
+        kani::cover!(r.is_ok(), "exchange opened");
+        kani::cover!(r.is_err(), "no group session");
+    }
+
+    /// Candidate D9: the store FAILS. `initiate_group` returns `Err`, nothing durable changed and
+    /// no exchange carries a usable reservation (store-before-use holds for this call) - but the
+    /// contract "`Err` leaves the in-memory boundary equal to the durable one" is what the
+    /// history lemma needs: the next reservation must again demand the store, because its value
+    /// is not covered by anything durable.
+    // NOT CLOSED (CBMC time-out 900 s with a full `Matter` value) - kept for the record, not compiled.
+    // TIER: thorough
+    // KIND: complete
+    #[cfg(verif_unclosed)]
+    #[kani::proof]
+    #[kani::unwind(8)]
+    #[kani::stub(Sessions::get_or_create_for_group_tx, group_tx_contract)]
+    #[kani::stub(embassy_time::Instant::now, fake_now)]
+    fn c12_d9_initiate_group_store_failure() {
+        let matter = Matter::new(&TEST_DEV_DET, TEST_DEV_COMM, &TEST_DEV_ATT, 0);
+        let d: u32 = kani::any();
+        kani::assume(d >= 1 && d <= RANGE);
+        setup(&matter, d);
+        let crypto = MockCrypto::new(true, false, 0);
+        let kv = RecKv {
+            fail: true,
+            stores: Cell::new(0),
+            key: Cell::new(0),
+            data: Cell::new([0; 4]),
+            len: Cell::new(0),
+        };
+
+        let r = Exchange::initiate_group(&matter, &crypto, &kv, NonZeroU8::new(1).unwrap(), kani::any());
+
+        kani::assert(r.is_err(), "C12.d9.group.failed_store_is_err");
+        kani::assert(durable_after(&kv, d) == d, "C12.d9.group.failed_store_keeps_durable");
+        let no_reservation = matter.with_state(|state| state.sessions.get(0).unwrap().exchanges.iter().all(|e| e.is_none()));
+        kani::assert(no_reservation, "C12.d9.group.failed_store_leaves_no_usable_reservation");
+        kani::cover!(kv.stores.get() == 1, "store attempted and failed");
+
+        // the application carries on: next group message. Durable boundary is still `d`.
+        let next = matter.with_state(|state| state.sessions.reserve_global_group_data_ctr(&crypto));
+        if kv.stores.get() == 1 {
+            match next {
+                Ok((v, to_persist)) => {
+                    kani::cover!(to_persist.is_none() && v == succ(d), "next value handed out without any store");
+                    // `v` is at or beyond the durable boundary `d`: only a new store can cover it
+                    kani::assert(to_persist.is_some(), "C12.d9.group.err_leaves_boundary_equal_durable");
+                }
+                Err(_) => kani::assert(false, "C12.d9.group.next_reservation_ok"),
+            }
+        }
+    }
+}
